@@ -316,3 +316,626 @@ Proof.
   rewrite (closed_holds e fl Q), (fields_ok_holds e Q), (query_params_holds e Q), (command_params_holds e Q).
   reflexivity.
 Qed.
+
+(* ======================= the link step ================================================================ *)
+(* ---- sub-sequences ------------------------------------------------------------------------------------ *)
+Inductive Sub {A} : list A -> list A -> Prop :=
+| Sub_nil : Sub [] []
+| Sub_skip : forall x a b, Sub a b -> Sub a (x :: b)
+| Sub_keep : forall x a b, Sub a b -> Sub (x :: a) (x :: b).
+
+Lemma Sub_refl : forall {A} (l : list A), Sub l l.
+Proof. induction l; [constructor|apply Sub_keep; assumption]. Qed.
+Lemma Sub_filter : forall {A} (q : A -> bool) l, Sub (filter q l) l.
+Proof. induction l as [|x l IH]; [constructor|]. cbn. destruct (q x); [apply Sub_keep|apply Sub_skip]; assumption. Qed.
+Lemma Sub_map : forall {A B} (f : A -> B) a b, Sub a b -> Sub (map f a) (map f b).
+Proof. induction 1; cbn; [constructor|apply Sub_skip|apply Sub_keep]; assumption. Qed.
+Lemma Sub_filter_both : forall {A} (q : A -> bool) a b, Sub a b -> Sub (filter q a) (filter q b).
+Proof.
+  induction 1 as [|x a b _ IH|x a b _ IH]; cbn; [constructor| |].
+  - destruct (q x); [apply Sub_skip|]; assumption.
+  - destruct (q x); [apply Sub_keep|]; assumption.
+Qed.
+Lemma Sub_app : forall {A} (a b c d : list A), Sub a b -> Sub c d -> Sub (a ++ c) (b ++ d).
+Proof. induction 1; intros H2; cbn; [assumption|apply Sub_skip; auto|apply Sub_keep; auto]. Qed.
+Lemma Sub_nil_l : forall {A} (l : list A), Sub [] l.
+Proof. induction l; [constructor|apply Sub_skip; assumption]. Qed.
+Lemma Sub_In : forall {A} (a b : list A) x, Sub a b -> In x a -> In x b.
+Proof.
+  induction 1 as [|y a b _ IH|y a b _ IH]; intros Hin; [assumption|right; auto|].
+  destruct Hin as [->|Hin]; [now left|right; auto].
+Qed.
+Lemma Sub_NoDup : forall {A} (a b : list A), Sub a b -> NoDup b -> NoDup a.
+Proof.
+  induction 1 as [|y a b Hs IH|y a b Hs IH]; intros Hn; [constructor| |]; inversion Hn; subst; auto.
+  constructor; [|auto]. intros Hin. apply H1. eapply Sub_In; eassumption.
+Qed.
+
+Lemma NoDup_map_finer : forall {A B C} (g : A -> B) (h : A -> C) l,
+  (forall x y, h x = h y -> g x = g y) -> NoDup (map g l) -> NoDup (map h l).
+Proof.
+  intros A B C g h l Hf. induction l as [|x l IH]; intros H; [constructor|]. cbn in *. inversion H; subst.
+  constructor; [|auto]. intros Hin. apply in_map_iff in Hin. destruct Hin as [y [Hy Hin]].
+  apply H2. rewrite <- (Hf y x Hy). now apply in_map.
+Qed.
+
+(* ---- the scope of a message of user fields -------------------------------------------------------------- *)
+Lemma of_ufield_facts : forall u,
+  f_json (of_ufield u) = uf_name u /\ f_optional (of_ufield u) = uf_optional u
+  /\ is_map_field (of_ufield u) = is_map_kind u.
+Proof. intros [n k r o]. unfold of_ufield, is_map_kind, is_map_field. cbn [uf_kind]. destruct k as [pt j|m|m|m|p f t|tn j|i|i]; cbn; repeat split; try reflexivity; destruct i; reflexivity. Qed.
+
+Lemma filter_map_comm : forall {A B} (f : A -> B) (p : B -> bool) (q : A -> bool) l,
+  (forall x, p (f x) = q x) -> filter p (map f l) = map f (filter q l).
+Proof.
+  intros A B f p q l H. induction l as [|x l IH]; [reflexivity|]. cbn. rewrite H. destruct (q x); cbn; now rewrite IH.
+Qed.
+
+Lemma user_scope : forall fs, fields_scope false (map of_ufield fs) = sp_field_scope fs.
+Proof.
+  intros fs. unfold fields_scope, sp_field_scope, entry_names, proto_name.
+  rewrite (filter_map_comm of_ufield f_optional uf_optional) by (intros x; apply of_ufield_facts).
+  rewrite (filter_map_comm of_ufield is_map_field is_map_kind) by (intros x; apply of_ufield_facts).
+  rewrite !map_map. f_equal; [|f_equal]; apply map_ext; intros u; destruct (of_ufield_facts u) as [-> _]; reflexivity.
+Qed.
+
+Lemma sp_field_scope_sub : forall a b, Sub a b -> Sub (sp_field_scope a) (sp_field_scope b).
+Proof.
+  intros a b H. unfold sp_field_scope. apply Sub_app; [now apply Sub_map|].
+  apply Sub_app; apply Sub_map; now apply Sub_filter_both.
+Qed.
+
+Lemma fields_wf_nodup : forall fs, fields_wf fs = true -> NoDup (sp_field_scope fs).
+Proof. intros fs H. unfold fields_wf in H. apply andb_true_iff in H. destruct H as [_ H]. now apply nodup_bytes_NoDup. Qed.
+
+(* names that start with a lower-case letter are neither presence oneofs nor map entries *)
+Definition lower_start (s : bytes) : bool := match s with c :: _ => is_low c | [] => false end.
+
+Lemma to_snake_lower_start : forall n, name_ok n = true -> lower_start (to_snake n) = true.
+Proof.
+  intros n H. unfold name_ok in H. apply andb_true_iff in H. destruct H as [Hi Hs].
+  unfold to_snake, to_delimited, to_screaming_delimited. rewrite (trim_space_ident n Hi).
+  destruct n as [|c r]; [discriminate|]. cbn [starts_letter] in Hs.
+  pose proof (hd_delimited false c r) as Hh. rewrite andb_false_r in Hh. cbn [andb orb] in Hh.
+  assert (Es : is_sep c = false).
+  { unfold is_letter in Hs. apply orb_true_iff in Hs. destruct Hs as [Hc|Hl]; [now apply cap_not_sep|now apply low_not_sep]. }
+  rewrite Es in Hh. destruct (delimited_go 95 false false (c :: r)) as [|o t]; [discriminate|].
+  cbn in Hh. inversion Hh. cbn [lower_start]. rewrite conv_low. unfold is_letter in Hs. now rewrite orb_comm.
+Qed.
+
+Lemma map_name_cap_start : forall s, lower_start s = true -> exists c t, map_name s = c :: t /\ is_cap c = true.
+Proof.
+  intros [|c r] H; [discriminate|]. cbn [lower_start] in H. unfold map_name. cbn [map_name_go].
+  assert (E : (c =? 95) = false) by (unfold is_low in H; apply N.eqb_neq; intros ->; discriminate).
+  rewrite E. eexists. eexists. split; [reflexivity|]. unfold to_upper. rewrite H. now apply low_upper_is_cap.
+Qed.
+
+Lemma lower_not_in_extras : forall fs x, forallb ufield_wf fs = true -> lower_start x = true ->
+  ~ In x (map (fun u => 95 :: to_snake (uf_name u)) (filter uf_optional fs)
+          ++ map (fun u => map_name (to_snake (uf_name u))) (filter is_map_kind fs)).
+Proof.
+  intros fs x Hw Hx Hin. apply in_app_or in Hin. destruct Hin as [Hin|Hin]; apply in_map_iff in Hin;
+    destruct Hin as [u [<- Hu]]; apply filter_In in Hu; destruct Hu as [Hu _].
+  - discriminate.
+  - rewrite forallb_forall in Hw. specialize (Hw u Hu). unfold ufield_wf in Hw. apply andb_true_iff in Hw.
+    destruct Hw as [Hn _]. destruct (map_name_cap_start _ (to_snake_lower_start _ Hn)) as [c [t [E Hc]]].
+    rewrite E in Hx. cbn in Hx. rewrite (cap_not_low c Hc) in Hx. discriminate.
+Qed.
+
+(* user fields plus fields the expansion appends: distinct when the appended names are lower-case
+   words none of the user's proto names repeats *)
+Lemma scope_with_added : forall fs added,
+  fields_wf fs = true -> NoDup added ->
+  Forall (fun x => lower_start x = true /\ ~ In x (map (fun u => to_snake (uf_name u)) fs)) added ->
+  NoDup (map (fun u => to_snake (uf_name u)) fs ++ added
+         ++ map (fun u => 95 :: to_snake (uf_name u)) (filter uf_optional fs)
+         ++ map (fun u => map_name (to_snake (uf_name u))) (filter is_map_kind fs)).
+Proof.
+  intros fs added Hw Ha Hadd. pose proof (fields_wf_nodup fs Hw) as Hn. unfold sp_field_scope in Hn.
+  unfold fields_wf in Hw. apply andb_true_iff in Hw. destruct Hw as [Hw _].
+  set (P := map (fun u => to_snake (uf_name u)) fs) in *.
+  set (X := map (fun u => 95 :: to_snake (uf_name u)) (filter uf_optional fs)
+            ++ map (fun u => map_name (to_snake (uf_name u))) (filter is_map_kind fs)) in *.
+  assert (HP : NoDup P) by (eapply NoDup_app_l; exact Hn).
+  assert (HX : NoDup X) by (eapply NoDup_app_r; exact Hn).
+  assert (HPX : forall x, In x P -> ~ In x X).
+  { intros x Hx Hx'. clear -Hn Hx Hx'. induction P as [|p P IH]; [destruct Hx|]. cbn in Hn. inversion Hn; subst.
+    destruct Hx as [->|Hx]; [apply H1; apply in_or_app; now right|now apply IH]. }
+  apply NoDup_app_intro; [exact HP| |].
+  - apply NoDup_app_intro; [exact Ha|exact HX|]. intros x Hx. rewrite Forall_forall in Hadd.
+    destruct (Hadd x Hx) as [Hl _]. now apply lower_not_in_extras.
+  - intros x Hx Hin. apply in_app_or in Hin. destruct Hin as [Hin|Hin]; [|exact (HPX x Hx Hin)].
+    rewrite Forall_forall in Hadd. destruct (Hadd x Hin) as [_ Hnot]. exact (Hnot Hx).
+Qed.
+
+(* ---- the three package scopes are the documented ones ---------------------------------------------------- *)
+Lemma file_scope_app : forall f a b, file_scope f (a ++ b) = file_scope f a ++ file_scope f b.
+Proof. intros. unfold file_scope. apply flat_map_app. Qed.
+Lemma file_scope_flat_map : forall {A} f (g : A -> list component) l,
+  file_scope f (flat_map g l) = flat_map (fun x => file_scope f (g x)) l.
+Proof. induction l as [|x l IH]; [reflexivity|]. cbn [flat_map]. now rewrite file_scope_app, IH. Qed.
+
+Lemma status_values_names : forall p l, map fst (status_values p l) = sp_enum_values p l.
+Proof.
+  intros p [|s r]; [reflexivity|]. cbn [status_values sp_enum_values].
+  destruct (has_suffix (bs "UNSPECIFIED") s); cbn [map fst]; rewrite number_from_names; reflexivity.
+Qed.
+
+Lemma file_scope_methods : forall f base name verb rel req resp sq,
+  file_scope f (fst (method_components base name verb rel req resp sq)) =
+    if 1 =? f then (name ++ bs "Request") :: match resp with Some _ => [name ++ bs "Response"] | None => [] end
+    else [].
+Proof.
+  intros. unfold file_scope, method_components. destruct resp; cbn [fst flat_map m_name app];
+    destruct (1 =? f); reflexivity.
+Qed.
+
+Lemma file_scope_service : forall f name ann ms,
+  file_scope f (service_components name ann ms) =
+    flat_map (fun m => file_scope f (fst m)) ms ++ (if 1 =? f then [name ++ bs "Service"] else []).
+Proof.
+  intros. unfold service_components. rewrite file_scope_app, file_scope_flat_map. f_equal.
+  unfold file_scope. cbn [flat_map sv_name app]. destruct (1 =? f); reflexivity.
+Qed.
+
+Lemma file_scope_query : forall e f,
+  file_scope f (query_components e) =
+    if 1 =? f then
+      let q := sp_query_prefix e in
+      [q ++ bs "GetRequest"; q ++ bs "GetResponse"; q ++ bs "ListRequest"; q ++ bs "ListResponse";
+       q ++ bs "EventsRequest"; q ++ bs "EventsResponse"; q ++ bs "QueryService"]
+    else [].
+Proof.
+  intros e f. unfold query_components. rewrite file_scope_service. cbn [flat_map].
+  rewrite !file_scope_methods. destruct (1 =? f); [|reflexivity].
+  cbv zeta. unfold sp_query_prefix, query_prefix, snake_name. cbn [app]. rewrite <- !app_assoc. reflexivity.
+Qed.
+
+Lemma file_scope_command : forall e c f,
+  file_scope f (command_components e c) =
+    if 1 =? f then
+      flat_map (fun m => (md_name m ++ bs "Request")
+                         :: match md_response m with Some _ => [md_name m ++ bs "Response"] | None => [] end)
+               (c_methods c) ++ [command_service e c]
+    else [].
+Proof.
+  intros e c f. unfold command_components. rewrite file_scope_service.
+  rewrite flat_map_concat_map, map_map, <- flat_map_concat_map.
+  rewrite (flat_map_ext _ (fun m => if 1 =? f then (md_name m ++ bs "Request")
+               :: match md_response m with Some _ => [md_name m ++ bs "Response"] | None => [] end else [])).
+  2:{ intros m. cbn [fst]. rewrite file_scope_methods. destruct (md_response m); reflexivity. }
+  destruct (1 =? f).
+  - f_equal. unfold command_service_name, command_service, camel_name, sp_camel.
+    destruct (c_name c) as [n|]; [destruct (has_suffix (bs "Command") n)|]; rewrite <- ?app_assoc; reflexivity.
+  - rewrite app_nil_r. apply flat_map_nil.
+Qed.
+
+Lemma file_scope_topic : forall f tn mn role en fields,
+  file_scope f (topic_components tn mn role en fields) =
+    if 2 =? f then [mn ++ bs "Message"; to_camel tn ++ bs "Topic"] else [].
+Proof.
+  intros. unfold file_scope, topic_components. cbn [flat_map m_name sv_name app]. destruct (2 =? f); reflexivity.
+Qed.
+
+Lemma file_scope_schema : forall f s,
+  file_scope f [schema_component s] = if f =? 0 then sp_schema_names s else [].
+Proof.
+  intros f [n fs|n fs|n os]; cbn [schema_component file_scope flat_map sp_schema_names app].
+  - rewrite N.eqb_sym. destruct (f =? 0); reflexivity.
+  - rewrite N.eqb_sym. destruct (f =? 0); reflexivity.
+  - rewrite app_nil_r, status_values_names. destruct (f =? 0); reflexivity.
+Qed.
+
+Lemma file_scope_schemas : forall f l,
+  file_scope f (map schema_component l) = if f =? 0 then flat_map sp_schema_names l else [].
+Proof.
+  induction l as [|s l IH]; [destruct (f =? 0); reflexivity|]. cbn [map flat_map].
+  change (schema_component s :: map schema_component l) with ([schema_component s] ++ map schema_component l).
+  rewrite file_scope_app, file_scope_schema, IH. destruct (f =? 0); reflexivity.
+Qed.
+
+Lemma summary_name_sp : forall e s, summary_topic_name e s = sp_summary_name e s.
+Proof. intros e s. unfold summary_topic_name, sp_summary_name, camel_name, sp_camel. destruct (s_name s); reflexivity. Qed.
+
+Theorem main_scope_eq : forall e fl, file_scope 0 (expand_with e fl) = sp_main_scope e.
+Proof.
+  intros e fl. unfold expand_with. rewrite !file_scope_app, file_scope_query, !file_scope_flat_map, file_scope_schemas.
+  unfold publish_components. rewrite file_scope_topic.
+  rewrite (flat_map_ext _ (fun _ => [])) by (intros c; apply file_scope_command).
+  rewrite (flat_map_ext (fun x => file_scope 0 (summary_components e x)) (fun _ => [])).
+  2:{ intros s. unfold summary_components. now rewrite file_scope_topic. }
+  rewrite !flat_map_nil. cbn [N.eqb Pos.eqb app].
+  unfold sp_main_scope. cbn [file_scope flat_map keys_msg data_msg status_enum state_msg event_type_msg event_msg m_name N.eqb app].
+  unfold event_type_name. rewrite status_values_names, cn_keys, cn_data, cn_status, cn_state, cn_event_type, cn_event.
+  rewrite ?app_nil_r. unfold status_prefix, sp_status_prefix. rewrite <- ?app_assoc. reflexivity.
+Qed.
+
+Theorem service_scope_eq : forall e fl, file_scope 1 (expand_with e fl) = sp_service_scope e.
+Proof.
+  intros e fl. unfold expand_with. rewrite !file_scope_app, file_scope_query, !file_scope_flat_map, file_scope_schemas.
+  unfold publish_components. rewrite file_scope_topic.
+  rewrite (flat_map_ext (fun x => file_scope 1 (command_components e x)) _) by (intros c; apply file_scope_command).
+  rewrite (flat_map_ext (fun x => file_scope 1 (summary_components e x)) (fun _ => [])).
+  2:{ intros s. unfold summary_components. now rewrite file_scope_topic. }
+  rewrite flat_map_nil. cbn [N.eqb Pos.eqb app file_scope flat_map]. rewrite ?app_nil_r.
+  unfold sp_service_scope. reflexivity.
+Qed.
+
+Theorem topic_scope_eq : forall e fl, file_scope 2 (expand_with e fl) = sp_topic_scope e.
+Proof.
+  intros e fl. unfold expand_with. rewrite !file_scope_app, file_scope_query, !file_scope_flat_map, file_scope_schemas.
+  unfold publish_components. rewrite file_scope_topic.
+  rewrite (flat_map_ext (fun x => file_scope 2 (command_components e x)) (fun _ => [])) by (intros c; apply file_scope_command).
+  rewrite (flat_map_ext (fun x => file_scope 2 (summary_components e x))
+                        (fun s => [sp_summary_name e s ++ bs "Message"; to_camel (sp_summary_name e s) ++ bs "Topic"])).
+  2:{ intros s. unfold summary_components. now rewrite file_scope_topic, summary_name_sp. }
+  rewrite flat_map_nil. cbn [N.eqb Pos.eqb app file_scope flat_map]. rewrite ?app_nil_r.
+  unfold sp_topic_scope, camel_name, sp_camel. rewrite <- ?app_assoc. reflexivity.
+Qed.
+
+(* ---- the scopes inside messages and services -------------------------------------------------------------- *)
+Lemma inner_scopes_app : forall a b, inner_scopes (a ++ b) = inner_scopes a ++ inner_scopes b.
+Proof. intros. unfold inner_scopes. apply flat_map_app. Qed.
+Lemma inner_scopes_flat_map : forall {A} (g : A -> list component) l,
+  inner_scopes (flat_map g l) = flat_map (fun x => inner_scopes (g x)) l.
+Proof. induction l as [|x l IH]; [reflexivity|]. cbn [flat_map]. now rewrite inner_scopes_app, IH. Qed.
+
+Definition all_nodup (l : list (list bytes)) : Prop := Forall (fun s => NoDup s) l.
+
+Lemma all_nodup_app : forall a b, all_nodup a -> all_nodup b -> all_nodup (a ++ b).
+Proof. intros a b Ha Hb. apply Forall_app. split; assumption. Qed.
+Lemma all_nodup_flat_map : forall {A} (g : A -> list (list bytes)) l,
+  (forall x, In x l -> all_nodup (g x)) -> all_nodup (flat_map g l).
+Proof.
+  induction l as [|x l IH]; intros H; [constructor|]. cbn [flat_map]. apply all_nodup_app.
+  - apply H. now left.
+  - apply IH. intros y Hy. apply H. now right.
+Qed.
+
+Lemma sub_wf : forall a b, Sub a b -> fields_wf b = true -> fields_wf a = true.
+Proof.
+  intros a b Hs Hb. pose proof (fields_wf_nodup b Hb) as Hn. unfold fields_wf in *.
+  apply andb_true_iff in Hb. destruct Hb as [Hw _]. apply andb_true_iff. split.
+  - apply forallb_forall. intros u Hu. rewrite forallb_forall in Hw. apply Hw. eapply Sub_In; eassumption.
+  - apply nodup_bytes_NoDup. eapply Sub_NoDup; [apply sp_field_scope_sub; exact Hs|exact Hn].
+Qed.
+
+(* a message that holds user fields only *)
+Lemma user_msg_scopes : forall name psm fs, fields_wf fs = true ->
+  all_nodup (msg_scopes (mkMsg name psm false (map of_ufield fs) [])).
+Proof.
+  intros name psm fs H. unfold msg_scopes. cbn [m_oneof m_fields m_nested map]. constructor; [|constructor].
+  rewrite app_nil_r, user_scope. now apply fields_wf_nodup.
+Qed.
+
+Lemma filter_none : forall {A} (p : A -> bool) l, Forall (fun x => p x = false) l -> filter p l = [].
+Proof. induction 1 as [|x l H _ IH]; [reflexivity|]. cbn [filter]. now rewrite H. Qed.
+
+(* user fields followed by fields of the expansion *)
+Lemma added_scope : forall fs (added : list ofield),
+  Forall (fun f => f_optional f = false /\ is_map_field f = false) added ->
+  fields_scope false (map of_ufield fs ++ added) =
+    map (fun u => to_snake (uf_name u)) fs ++ map proto_name added
+    ++ map (fun u => 95 :: to_snake (uf_name u)) (filter uf_optional fs)
+    ++ map (fun u => map_name (to_snake (uf_name u))) (filter is_map_kind fs).
+Proof.
+  intros fs added Ha. unfold fields_scope, entry_names. rewrite !filter_app, !map_app.
+  assert (E1 : filter f_optional added = []).
+  { apply filter_none. eapply Forall_impl; [|exact Ha]. intros f [H _]. exact H. }
+  assert (E2 : filter is_map_field added = []).
+  { apply filter_none. eapply Forall_impl; [|exact Ha]. intros f [_ H]. exact H. }
+  rewrite E1, E2. cbn [map]. rewrite !app_nil_r.
+  pose proof (user_scope fs) as U. unfold fields_scope, sp_field_scope, entry_names in U.
+  rewrite (filter_map_comm of_ufield f_optional uf_optional) by (intros x; apply of_ufield_facts).
+  rewrite (filter_map_comm of_ufield is_map_field is_map_kind) by (intros x; apply of_ufield_facts).
+  rewrite !map_map. rewrite <- !app_assoc. f_equal; [|f_equal; f_equal];
+    apply map_ext; intros u; unfold proto_name; destruct (of_ufield_facts u) as [-> _]; reflexivity.
+Qed.
+
+Lemma path_keys_not_reserved : forall e ks, reserved_free e = true ->
+  (forall u, In u ks -> exists k, In k (e_keys e) /\ key_in_path k = true /\ u = k_def k) ->
+  Forall (fun x => lower_start x = true /\ ~ In x (map (fun u => to_snake (uf_name u)) ks)) [bs "page"; bs "query"].
+Proof.
+  intros e ks Hr Hks. destruct (reserved_free_parts e Hr) as [R1 _]. rewrite forallb_forall in R1.
+  assert (G : forall x, In x [bs "page"; bs "query"] -> ~ In x (map (fun u => to_snake (uf_name u)) ks)).
+  { intros x Hx Hin. apply in_map_iff in Hin. destruct Hin as [u [Eu Hu]].
+    destruct (Hks u Hu) as [k [Hk [Hp ->]]]. specialize (R1 k Hk). rewrite Hp in R1. cbn [andb] in R1.
+    apply negb_true_iff in R1. unfold key_name in R1. rewrite Eu in R1.
+    apply existsb_bytes_In in Hx. congruence. }
+  constructor; [split; [reflexivity|apply G; cbn; auto]|].
+  constructor; [split; [reflexivity|apply G; cbn; auto]|constructor].
+Qed.
+
+Lemma get_keys_path : forall e u, In u (get_keys e) -> exists k, In k (e_keys e) /\ key_in_path k = true /\ u = k_def k.
+Proof.
+  intros e u H. unfold get_keys in H. apply in_map_iff in H. destruct H as [k [<- Hk]].
+  apply filter_In in Hk. destruct Hk as [Hk Hp]. exists k. repeat split; assumption.
+Qed.
+Lemma list_keys_path : forall e u, In u (list_keys e) -> exists k, In k (e_keys e) /\ key_in_path k = true /\ u = k_def k.
+Proof.
+  intros e u H. unfold list_keys in H. apply in_map_iff in H. destruct H as [k [<- Hk]].
+  apply filter_In in Hk. destruct Hk as [Hk Hp]. exists k. split; [assumption|]. split; [|reflexivity].
+  apply andb_true_iff in Hp. destruct Hp as [H1 H2]. unfold key_in_path.
+  change (key_typed k) with (is_key_field (k_def k)). rewrite H1, H2. now rewrite orb_true_r.
+Qed.
+
+Lemma get_keys_sub : forall e, Sub (get_keys e) (map k_def (e_keys e)).
+Proof. intros e. unfold get_keys. apply Sub_map, Sub_filter. Qed.
+Lemma list_keys_sub : forall e, Sub (list_keys e) (map k_def (e_keys e)).
+Proof. intros e. unfold list_keys. apply Sub_map, Sub_filter. Qed.
+
+Lemma paged_request_scopes : forall e name ks, quantified e -> reserved_free e = true ->
+  Sub ks (map k_def (e_keys e)) ->
+  (forall u, In u ks -> exists k, In k (e_keys e) /\ key_in_path k = true /\ u = k_def k) ->
+  all_nodup (msg_scopes (mkMsg name None false (map of_ufield ks ++ [page_request; query_request]) [])).
+Proof.
+  intros e name ks Q Hr Hs Hk. unfold msg_scopes. cbn [m_oneof m_fields m_nested map]. constructor; [|constructor].
+  rewrite app_nil_r, added_scope by (repeat constructor).
+  apply (scope_with_added ks [bs "page"; bs "query"]).
+  - exact (sub_wf _ _ Hs (q_keys_wf e Q)).
+  - repeat constructor; cbn; intuition discriminate.
+  - now apply (path_keys_not_reserved e).
+Qed.
+
+Lemma literal_scopes : forall name psm (fs : list ofield) names,
+  fields_scope false fs = names -> nodup_bytes names = true ->
+  all_nodup (msg_scopes (mkMsg name psm false fs [])).
+Proof.
+  intros name psm fs names E H. unfold msg_scopes. cbn [m_oneof m_fields m_nested map]. constructor; [|constructor].
+  rewrite app_nil_r, E. now apply nodup_bytes_NoDup.
+Qed.
+
+(* ---- part by part ---------------------------------------------------------------------------------------------- *)
+Lemma inner_head : forall e fl, quantified e -> reserved_free e = true ->
+  all_nodup (inner_scopes [CMsg 0 (keys_msg e); CMsg 0 (data_msg e); status_enum e;
+                           CMsg 0 (state_msg e fl); CMsg 0 (event_type_msg e); CMsg 0 (event_msg e)]).
+Proof.
+  intros e fl Q Hr. unfold inner_scopes. cbn [flat_map status_enum app]. rewrite app_nil_r.
+  repeat apply all_nodup_app.
+  - unfold keys_msg. rewrite <- (map_map k_def of_ufield). apply user_msg_scopes. exact (q_keys_wf e Q).
+  - unfold data_msg. apply user_msg_scopes. exact (q_data_wf e Q).
+  - unfold state_msg. eapply literal_scopes; [vm_compute; reflexivity|reflexivity].
+  - (* the event oneof: options, the proto oneof "type", the nested event messages *)
+    unfold msg_scopes, event_type_msg. cbn [m_oneof m_fields m_nested]. constructor.
+    + set (opts := map (fun ev => to_snake (to_lower_camel (ev_name ev))) (e_events e)).
+      assert (E : fields_scope true (map (fun ev => mkF (to_lower_camel (ev_name ev))
+                     (TObject [] (event_type_name e ++ [46] ++ ev_name ev)) false false false false None None) (e_events e))
+                  = opts ++ (if is_nil (e_events e) then [] else [bs "type"])).
+      { unfold fields_scope, entry_names, proto_name. rewrite map_map. cbn [f_json mkF].
+        assert (En : filter is_map_field (map (fun ev => mkF (to_lower_camel (ev_name ev))
+                     (TObject [] (event_type_name e ++ [46] ++ ev_name ev)) false false false false None None) (e_events e)) = []).
+        { apply filter_none. apply Forall_map. apply Forall_forall. intros ev _. reflexivity. }
+        rewrite En. cbn [map]. rewrite app_nil_r. f_equal. destruct (e_events e); reflexivity. }
+      rewrite E, map_map. cbn [fst].
+      pose proof (q_event_opts e Q) as Ho. apply nodup_bytes_NoDup in Ho. fold opts in Ho.
+      destruct (reserved_free_parts e Hr) as [_ [_ [_ [R4 _]]]].
+      assert (Hcap : forall ev, In ev (e_events e) -> starts_cap (ev_name ev) = true).
+      { intros ev Hev. pose proof (q_events e Q) as H. rewrite forallb_forall in H. specialize (H ev Hev).
+        apply andb_true_iff in H. destruct H as [H _]. apply andb_true_iff in H. destruct H as [H _].
+        unfold type_name_ok in H. apply andb_true_iff in H. tauto. }
+      assert (Hlow : forall x, In x opts \/ x = bs "type" -> forall ev, In ev (e_events e) -> x <> ev_name ev).
+      { intros x Hx ev Hev E2. specialize (Hcap ev Hev). rewrite <- E2 in Hcap. destruct Hx as [Hx| ->]; [|discriminate].
+        unfold opts in Hx. apply in_map_iff in Hx. destruct Hx as [ev' [<- _]].
+        pose proof (snake_nf_delimited (trim_space (to_lower_camel (ev_name ev'))) false) as Hnf.
+        change (delimited_go 95 false false (trim_space (to_lower_camel (ev_name ev')))) with (to_snake (to_lower_camel (ev_name ev'))) in Hnf.
+        destruct (to_snake (to_lower_camel (ev_name ev'))) as [|c r]; [discriminate|].
+        cbn [starts_cap] in Hcap. cbn [snake_nf] in Hnf. apply andb_true_iff in Hnf. destruct Hnf as [Hnf _].
+        apply andb_true_iff in Hnf. destruct Hnf as [Hnf _]. unfold okc in Hnf. rewrite Hcap in Hnf. discriminate. }
+      rewrite <- app_assoc. apply NoDup_app_intro; [exact Ho| |].
+      * apply NoDup_app_intro.
+        -- destruct (is_nil (e_events e)); repeat constructor. intros [].
+        -- eapply (NoDup_map_finer (fun ev => to_snake (to_lower_camel (ev_name ev))) ev_name); [|exact Ho].
+           intros x y Hxy. now rewrite Hxy.
+        -- intros x Hx Hin. destruct (is_nil (e_events e)); [destruct Hx|]. destruct Hx as [<-|[]].
+           apply in_map_iff in Hin. destruct Hin as [ev [E2 Hev]]. exact (Hlow (bs "type") (or_intror eq_refl) ev Hev (eq_sym E2)).
+      * intros x Hx Hin. apply in_app_or in Hin. destruct Hin as [Hin|Hin].
+        -- destruct (is_nil (e_events e)); [destruct Hin|]. destruct Hin as [<-|[]].
+           unfold opts in Hx. apply in_map_iff in Hx. destruct Hx as [ev [E2 Hev]].
+           rewrite forallb_forall in R4. specialize (R4 ev Hev). rewrite E2 in R4. discriminate.
+        -- apply in_map_iff in Hin. destruct Hin as [ev [E2 Hev]]. exact (Hlow x (or_introl Hx) ev Hev (eq_sym E2)).
+    + apply Forall_map. apply Forall_forall. intros n Hn. apply in_map_iff in Hn. destruct Hn as [ev [<- Hev]].
+      cbn [snd]. rewrite user_scope. apply fields_wf_nodup.
+      pose proof (q_events e Q) as H. rewrite forallb_forall in H. specialize (H ev Hev).
+      apply andb_true_iff in H. destruct H as [H _]. apply andb_true_iff in H. tauto.
+  - unfold event_msg. eapply literal_scopes; [vm_compute; reflexivity|reflexivity].
+Qed.
+
+Lemma inner_service : forall name ann ms,
+  inner_scopes (service_components name ann ms) = inner_scopes (flat_map fst ms) ++ [map mt_name (map snd ms)].
+Proof. intros. unfold service_components. rewrite inner_scopes_app. reflexivity. Qed.
+
+Lemma inner_method : forall base name verb rel req resp sq,
+  inner_scopes (fst (method_components base name verb rel req resp sq)) =
+    msg_scopes (mkMsg (name ++ bs "Request") None false req [])
+    ++ match resp with Some r => msg_scopes (mkMsg (name ++ bs "Response") None false r []) | None => [] end.
+Proof. intros. destruct resp; cbn [fst method_components inner_scopes flat_map]; rewrite ?app_nil_r; reflexivity. Qed.
+
+Lemma app_inj_neq : forall (q a b : bytes), a <> b -> q ++ a <> q ++ b.
+Proof. intros q a b H E. apply app_inv_head in E. contradiction. Qed.
+
+Lemma inner_query : forall e, quantified e -> reserved_free e = true -> all_nodup (inner_scopes (query_components e)).
+Proof.
+  intros e Q Hr. unfold query_components. rewrite inner_service. cbn [flat_map map snd method_components mt_name].
+  rewrite !inner_scopes_app, !inner_method. cbn [inner_scopes flat_map]. rewrite ?app_nil_r.
+  destruct (reserved_free_parts e Hr) as [_ [_ [_ [_ [_ [R5 R6]]]]]].
+  repeat apply all_nodup_app.
+  - apply user_msg_scopes. exact (sub_wf _ _ (get_keys_sub e) (q_keys_wf e Q)).
+  - (* Get response: the entity's own property, and events when eventsInGet *)
+    unfold msg_scopes. cbn [m_oneof m_fields m_nested map]. constructor; [|constructor]. rewrite app_nil_r.
+    destruct (match e_query e with Some q => q_events_in_get q | None => false end) eqn:Eg.
+    + unfold fields_scope, entry_names, proto_name. cbn [map filter f_json f_optional mkF array_field is_map_field f_type local_obj app].
+      cbn [andb] in R6. constructor; [|repeat constructor; intros []]. intros [Hin|[]].
+      change (to_snake (bs "events")) with (bs "events") in Hin. unfold response_name in R6. unfold snake_name in Hin.
+      rewrite <- Hin, bytes_eqb_refl in R6. discriminate.
+    + unfold fields_scope, entry_names, proto_name. cbn [map filter f_json f_optional mkF is_map_field f_type local_obj app].
+      repeat constructor. intros [].
+  - now apply (paged_request_scopes e _ (list_keys e) Q Hr (list_keys_sub e) (list_keys_path e)).
+  - (* List response: the entity's own property and page *)
+    unfold msg_scopes. cbn [m_oneof m_fields m_nested map]. constructor; [|constructor]. rewrite app_nil_r.
+    unfold fields_scope, entry_names, proto_name, page_response, plain_field. cbn [map filter f_json f_optional mkF array_field is_map_field f_type local_obj app].
+    constructor; [|repeat constructor; intros []]. intros [Hin|[]].
+    change (to_snake (bs "page")) with (bs "page") in Hin. unfold response_name in R5. unfold snake_name in Hin.
+    rewrite <- Hin, bytes_eqb_refl in R5. discriminate.
+  - now apply (paged_request_scopes e _ (get_keys e) Q Hr (get_keys_sub e) (get_keys_path e)).
+  - eapply literal_scopes; [vm_compute; reflexivity|reflexivity].
+  - constructor; [|constructor]. repeat constructor; cbn; intros H;
+      repeat (destruct H as [H|H]; [apply app_inv_head in H; discriminate|]); exact H.
+Qed.
+
+Lemma inner_command : forall e c, quantified e -> In c (e_commands e) -> all_nodup (inner_scopes (command_components e c)).
+Proof.
+  intros e c Q Hc. unfold command_components. rewrite inner_service.
+  pose proof (q_commands e Q) as H. rewrite forallb_forall in H. specialize (H c Hc).
+  apply andb_true_iff in H. destruct H as [H Hn]. apply andb_true_iff in H. destruct H as [_ Hm].
+  rewrite forallb_forall in Hm. apply all_nodup_app.
+  - rewrite flat_map_concat_map, map_map, <- flat_map_concat_map, inner_scopes_flat_map.
+    apply all_nodup_flat_map. intros m Hin. cbn [fst]. rewrite inner_method.
+    specialize (Hm m Hin). unfold method_wf in Hm.
+    repeat match type of Hm with
+           | (_ && _) = true => apply andb_true_iff in Hm; let H' := fresh "M" in destruct Hm as [Hm H']
+           end.
+    apply all_nodup_app; [now apply user_msg_scopes|].
+    destruct (md_response m) as [r|]; [|constructor]. cbn [option_map].
+    apply andb_true_iff in M0. destruct M0 as [W _]. now apply user_msg_scopes.
+  - constructor; [|constructor]. rewrite !map_map. cbn [snd method_components mt_name].
+    apply nodup_bytes_NoDup in Hn. exact Hn.
+Qed.
+
+Lemma inner_topic : forall tn mn role en fields,
+  inner_scopes (topic_components tn mn role en fields) =
+    msg_scopes (mkMsg (mn ++ bs "Message") None false fields []) ++ [[mn]].
+Proof. reflexivity. Qed.
+
+Lemma inner_publish : forall e, all_nodup (inner_scopes (publish_components e)).
+Proof.
+  intros e. unfold publish_components. rewrite inner_topic. apply all_nodup_app.
+  - eapply literal_scopes; [vm_compute; reflexivity|reflexivity].
+  - repeat constructor. intros [].
+Qed.
+
+Lemma inner_summary : forall e s, quantified e -> reserved_free e = true -> In s (e_summaries e) ->
+  all_nodup (inner_scopes (summary_components e s)).
+Proof.
+  intros e s Q Hr Hs. unfold summary_components. rewrite inner_topic. apply all_nodup_app.
+  - unfold msg_scopes. cbn [m_oneof m_fields m_nested map]. constructor; [|constructor]. rewrite app_nil_r.
+    pose proof (q_summaries e Q) as H. rewrite forallb_forall in H. specialize (H s Hs).
+    apply andb_true_iff in H. destruct H as [H _]. apply andb_true_iff in H. destruct H as [_ W].
+    destruct (reserved_free_parts e Hr) as [_ [_ [R3 _]]]. rewrite forallb_forall in R3. specialize (R3 s Hs).
+    rewrite forallb_forall in R3.
+    (* upsert first, then the user's fields *)
+    pose proof (scope_with_added (s_fields s) [bs "upsert"] W) as N.
+    assert (Hadd : Forall (fun x => lower_start x = true /\ ~ In x (map (fun u => to_snake (uf_name u)) (s_fields s))) [bs "upsert"]).
+    { constructor; [|constructor]. split; [reflexivity|]. intros Hin. apply in_map_iff in Hin. destruct Hin as [u [Eu Hu]].
+      specialize (R3 u Hu). rewrite Eu, bytes_eqb_refl in R3. discriminate. }
+    specialize (N ltac:(repeat constructor; intros []) Hadd).
+    unfold fields_scope, entry_names. cbn [map filter plain_field mkF f_optional is_map_field f_type].
+    pose proof (user_scope (s_fields s)) as U. unfold fields_scope, sp_field_scope, entry_names in U.
+    set (A := map (fun u => to_snake (uf_name u)) (s_fields s)) in *.
+    set (B := map (fun u => 95 :: to_snake (uf_name u)) (filter uf_optional (s_fields s))) in *.
+    set (C := map (fun u => map_name (to_snake (uf_name u))) (filter is_map_kind (s_fields s))) in *.
+    (* the scope is upsert :: A ++ B ++ C, a rearrangement of A ++ [upsert] ++ B ++ C *)
+    assert (Eq : map proto_name (map of_ufield (s_fields s)) = A).
+    { unfold A. rewrite map_map. apply map_ext. intros u. unfold proto_name. destruct (of_ufield_facts u) as [-> _]. reflexivity. }
+    assert (EB : map (fun f => 95 :: proto_name f) (filter f_optional (map of_ufield (s_fields s))) = B).
+    { unfold B. rewrite (filter_map_comm of_ufield f_optional uf_optional) by (intros x; apply of_ufield_facts).
+      rewrite map_map. apply map_ext. intros u. unfold proto_name. destruct (of_ufield_facts u) as [-> _]. reflexivity. }
+    assert (EC : map (fun f => map_name (proto_name f)) (filter is_map_field (map of_ufield (s_fields s))) = C).
+    { unfold C. rewrite (filter_map_comm of_ufield is_map_field is_map_kind) by (intros x; apply of_ufield_facts).
+      rewrite map_map. apply map_ext. intros u. unfold proto_name. destruct (of_ufield_facts u) as [-> _]. reflexivity. }
+    rewrite Eq, EB, EC. change (proto_name (mkF10 (bs "upsert") (TObject (bs "j5.messaging.v1") (bs "UpsertMetadata")) false true false false None None None false)) with (bs "upsert").
+    cbn [app]. constructor.
+    + intros Hin. apply in_app_or in Hin. destruct Hin as [Hin|Hin].
+      * rewrite Forall_forall in Hadd. destruct (Hadd (bs "upsert") (or_introl eq_refl)) as [_ Hn]. exact (Hn Hin).
+      * unfold fields_wf in W. apply andb_true_iff in W. destruct W as [W _].
+        exact (lower_not_in_extras (s_fields s) (bs "upsert") W eq_refl Hin).
+    + apply (Sub_NoDup _ _ (Sub_app _ _ _ _ (Sub_refl A) (Sub_skip (bs "upsert") _ _ (Sub_refl (B ++ C)))) N).
+  - repeat constructor. intros [].
+Qed.
+
+Lemma inner_schema : forall e s, quantified e -> reserved_free e = true -> In s (e_schemas e) ->
+  all_nodup (inner_scopes [schema_component s]).
+Proof.
+  intros e s Q Hr Hs. pose proof (q_schemas e Q) as H. rewrite forallb_forall in H. specialize (H s Hs).
+  apply andb_true_iff in H. destruct H as [H _]. apply andb_true_iff in H. destruct H as [_ W].
+  destruct s as [n fs|n fs|n os]; cbn [schema_component inner_scopes flat_map schema_fields] in *; rewrite ?app_nil_r.
+  - now apply user_msg_scopes.
+  - (* a oneof of the block: options, the proto oneof "type", map entries *)
+    unfold msg_scopes. cbn [m_oneof m_fields m_nested map]. constructor; [|constructor]. rewrite app_nil_r.
+    destruct (reserved_free_parts e Hr) as [_ [_ [_ [_ [R4 _]]]]]. rewrite forallb_forall in R4. specialize (R4 _ Hs).
+    cbn in R4. rewrite forallb_forall in R4.
+    pose proof (scope_with_added fs [bs "type"] W) as N.
+    assert (Hadd : Forall (fun x => lower_start x = true /\ ~ In x (map (fun u => to_snake (uf_name u)) fs)) [bs "type"]).
+    { constructor; [|constructor]. split; [reflexivity|]. intros Hin. apply in_map_iff in Hin. destruct Hin as [u [Eu Hu]].
+      specialize (R4 u Hu). rewrite Eu, bytes_eqb_refl in R4. discriminate. }
+    specialize (N ltac:(repeat constructor; intros []) Hadd).
+    unfold fields_scope, entry_names.
+    assert (Eq : map proto_name (map of_ufield fs) = map (fun u => to_snake (uf_name u)) fs).
+    { rewrite map_map. apply map_ext. intros u. unfold proto_name. destruct (of_ufield_facts u) as [-> _]. reflexivity. }
+    assert (EC : map (fun f => map_name (proto_name f)) (filter is_map_field (map of_ufield fs))
+                 = map (fun u => map_name (to_snake (uf_name u))) (filter is_map_kind fs)).
+    { rewrite (filter_map_comm of_ufield is_map_field is_map_kind) by (intros x; apply of_ufield_facts).
+      rewrite map_map. apply map_ext. intros u. unfold proto_name. destruct (of_ufield_facts u) as [-> _]. reflexivity. }
+    rewrite Eq, EC.
+    eapply Sub_NoDup; [|exact N]. apply Sub_app; [apply Sub_refl|].
+    destruct (is_nil (map of_ufield fs)).
+    + cbn [app]. apply Sub_skip. rewrite <- (app_nil_l (map _ (filter is_map_kind fs))) at 1.
+      apply Sub_app; [apply Sub_nil_l|apply Sub_refl].
+    + cbn [app]. apply Sub_keep. rewrite <- (app_nil_l (map _ (filter is_map_kind fs))) at 1.
+      apply Sub_app; [apply Sub_nil_l|apply Sub_refl].
+  - constructor.
+Qed.
+
+Lemma inner_schemas : forall e l, quantified e -> reserved_free e = true -> (forall s, In s l -> In s (e_schemas e)) ->
+  all_nodup (inner_scopes (map schema_component l)).
+Proof.
+  intros e l Q Hr. induction l as [|s l IH]; intros Hl; [constructor|]. cbn [map].
+  change (schema_component s :: map schema_component l) with ([schema_component s] ++ map schema_component l).
+  rewrite inner_scopes_app. apply all_nodup_app.
+  - apply (inner_schema e s Q Hr). apply Hl. now left.
+  - apply IH. intros x Hx. apply Hl. now right.
+Qed.
+
+(* ---- the link step succeeds ---------------------------------------------------------------------------------------- *)
+Theorem link_accepts : forall e fl, quantified e -> reserved_free e = true -> link_ok (expand_with e fl) = true.
+Proof.
+  intros e fl Q Hr. unfold link_ok, scopes. apply forallb_forall. intros sc Hin.
+  apply nodup_bytes_NoDup. apply in_app_or in Hin. destruct Hin as [Hin|Hin].
+  - destruct Hin as [<-|[<-|[<-|[]]]].
+    + rewrite main_scope_eq. apply nodup_bytes_NoDup. exact (q_main e Q).
+    + rewrite service_scope_eq. apply nodup_bytes_NoDup. exact (q_service e Q).
+    + rewrite topic_scope_eq. apply nodup_bytes_NoDup. exact (q_topic e Q).
+  - assert (A : all_nodup (inner_scopes (expand_with e fl))).
+    { unfold expand_with. rewrite !inner_scopes_app, !inner_scopes_flat_map.
+      apply all_nodup_app; [now apply inner_head|].
+      apply all_nodup_app; [now apply inner_query|].
+      apply all_nodup_app; [apply all_nodup_flat_map; intros c Hc; now apply inner_command|].
+      apply all_nodup_app; [apply inner_publish|].
+      apply all_nodup_app; [apply all_nodup_flat_map; intros s Hs; now apply inner_summary|].
+      apply (inner_schemas e _ Q Hr). auto. }
+    unfold all_nodup in A. rewrite Forall_forall in A. now apply A.
+Qed.
+
+(* ACCEPTANCE: a declaration in the quantifier that uses no field name the expansion adds itself compiles *)
+Theorem acceptance : forall e, in_quantifier e = true -> reserved_free e = true -> exists cs, compile e = Ok cs.
+Proof.
+  intros e Hq Hr. pose proof (quantified_of e Hq) as Q. destruct (convert_accepts e Q) as [fl Hc].
+  exists (expand_with e fl). unfold compile, compile_file. cbn [existsb].
+  destruct (e_status e) as [|s0 sr] eqn:Es; [exfalso; exact (q_status_ne e Q Es)|]. cbn [is_nil orb].
+  rewrite convert_all_single, Hc, app_nil_r, (link_accepts e fl Q Hr). reflexivity.
+Qed.
+
+(* the FULL statement of C17 for every declaration without reserved names *)
+Theorem full_modulo_reserved : forall e, in_quantifier e = true -> reserved_free e = true ->
+  exists cs, compile e = Ok cs /\ C17_spec e cs.
+Proof.
+  intros e Hq Hr. destruct (acceptance e Hq Hr) as [cs Hc]. exists cs. split; [exact Hc|].
+  destruct (full_partial e cs Hc) as [H1 [H2 H3]]. split; [exact H1|]. split; [exact (H2 Hq)|exact (H3 Hq Hr)].
+Qed.
+
+(* an entity named Page: its own property in the List response is "page", next to the page field *)
+Definition page_entity : entity :=
+  mkE (bs "foo.v1") (bs "Page") [] [mkK (mkU (bs "fooId") (KKey true None None) false false) false]
+      [] [bs "ACTIVE"] [] [] [] None [].
+Theorem entity_named_page_refuted :
+  in_quantifier page_entity = true /\ compile page_entity = Err "symbol already defined".
+Proof. split; vm_compute; reflexivity. Qed.
